@@ -243,9 +243,24 @@ func sideEffect0() {
 func OutsidePackage(a OutsideAtom) *Package { return AtomPackage("o_", a) }
 
 // AtomPackage builds the host package of one atom; prefix distinguishes the catalogue.
-func AtomPackage(prefix string, a OutsideAtom) *Package {
+func AtomPackage(prefix string, a OutsideAtom) *Package { return AtomPackageVariant(prefix, a, nil, 0) }
+
+// surround are supported statements over the host variables that declare no new names (except
+// inside their own bodies); random selections of them vary what precedes and follows an atom.
+var surround = []string{
+	"x = x + 1", "s[1] = x", "p.f = p.f ^ x", "m[2] = x", "*q = *q + 1", "w += 3", "z ^= 5", "x = x*3 + y",
+	"if x > 5 {\n\t\tx = x - 1\n\t}", "if x%2 == 0 {\n\t\ts[2] = s[2] + 1\n\t} else {\n\t\tp.g += 1\n\t}",
+	"for sv := uint64(0); sv < 2; sv++ {\n\t\tx += sv\n\t}", "for _, sv2 := range s {\n\t\tx = x + sv2\n\t}",
+	"delete(m, 2)", "s = append(s, x)", "p.b += 1", "sideEffect0()",
+}
+
+// AtomPackageVariant: with rng != nil the statements before and after the atom are drawn at random.
+func AtomPackageVariant(prefix string, a OutsideAtom, rng interface{ Intn(int) int }, variant int) *Package {
 	var b strings.Builder
 	name := prefix + a.ID
+	if rng != nil {
+		name = fmt.Sprintf("%s%s_v%d", prefix, a.ID, variant)
+	}
 	fmt.Fprintf(&b, "package %s\n\nimport (\n\t\"sync\"\n\n\t\"github.com/goose-lang/goose/machine\"\n)\n\n", name)
 	var cases []string
 	args := []uint64{0, 3, 8, 255, 4294967296, 18446744073709551615}
@@ -269,6 +284,15 @@ func AtomPackage(prefix string, a OutsideAtom) *Package {
 		code := "\t" + a.Code + "\n"
 		pre := "\tx = x + 1\n\ts[1] = x\n"
 		post := "\tx = x + y\n\tp.g = p.g + uint32(x)\n"
+		if rng != nil {
+			pre, post = "", ""
+			for k := rng.Intn(4); k > 0; k-- {
+				pre += "\t" + surround[rng.Intn(len(surround))] + "\n"
+			}
+			for k := rng.Intn(4); k > 0; k-- {
+				post += "\t" + surround[rng.Intn(len(surround))] + "\n"
+			}
+		}
 		switch pos {
 		case "first":
 			b.WriteString(code + post)
